@@ -151,14 +151,23 @@ class R(object):
         raise RefReject('power %r' % (k,))
 
 
+STD_PREFIX = {'Y': 1e24, 'Z': 1e21, 'E': 1e18, 'P': 1e15, 'T': 1e12, 'G': 1e9, 'M': 1e6, 'k': 1e3,
+              'h': 1e2, 'da': 1e1, 'd': 1e-1, 'c': 1e-2, 'm': 1e-3, 'u': 1e-6, 'n': 1e-9, 'p': 1e-12,
+              'f': 1e-15, 'a': 1e-18, 'z': 1e-21, 'y': 1e-24,
+              'Ki': 2.0 ** 10, 'Mi': 2.0 ** 20, 'Gi': 2.0 ** 30, 'Ti': 2.0 ** 40, 'Pi': 2.0 ** 50,
+              'Ei': 2.0 ** 60}
+
+
 class RefLib(object):
     def __init__(self, text):
         from configparser import RawConfigParser
         cp = RawConfigParser()
         cp.optionxform = str
         cp.read_string(text)
+        # prefix spellings come from the shipped table, their values from the SI / IEC definitions
+        # wherever the spelling is a standard symbol (the shipped number is then not trusted)
         self.prefixes = collections.OrderedDict(
-            (k, float(v.split(',')[0])) for k, v in cp.items('prefixes'))
+            (k, STD_PREFIX.get(k, float(v.split(',')[0]))) for k, v in cp.items('prefixes'))
         base = [name for _, name in cp.items('base_units')]
         self.base_names = base
         nb = len(base)
@@ -309,7 +318,7 @@ def _depth1(basis, ks):
     for a in basis:
         for k in ks:
             out.append('%s**%d' % (a, k))
-        out += ['2*%s' % a, '%s/2.0' % a, '1/%s' % a, '%s*0.25' % a, '%s**0.5' % a]
+        out += ['2*%s' % a, '%s/2.0' % a, '1/%s' % a, '%s*0.25' % a, '%s**0.5' % a, '2/%s' % a]
     return out
 
 
@@ -317,7 +326,9 @@ def _unary(e, ks):
     out = ['(%s)**%d' % (e, k) for k in ks]
     out += ['(%s)**0.5' % e, '(%s)**(1/3.)' % e, '((%s)**2)**0.5' % e, '((%s)**4)**0.5' % e,
             '((%s)**3)**(1.0/3.0)' % e, '(%s)**-0.5' % e, '2*(%s)' % e, '(%s)/2.0' % e,
-            '1/(%s)' % e, '0.25*(%s)' % e]
+            '1/(%s)' % e, '0.25*(%s)' % e,
+            # a literal divided by an expression that may already contain the same literal
+            '2/(%s)' % e, '2.0/(%s)' % e, '0.25/(%s)' % e]
     return out
 
 
